@@ -186,7 +186,7 @@ package bytesconv
 //@ ghost var qpos array
 //@ ghost var qn int
 //@ ghost var qfs int
-//@ ghost var qk int
+//@ ghost var qk int scratch
 //@ ghost var qok bool
 //@ pure func escArg(c int) bool = QuotedArgShouldEscapeTable[c] != 0
 //@ macro argPlain(c) = c != ' ' && !escArg(c)
